@@ -89,8 +89,12 @@ func ruleDrainBeforeTerminal(c *Ctx, r *R) {
 						// the terminal arm's first block must hold a non-blocking select receiving from the same field
 						okDrain := false
 						detail := "the terminal arm does not start with a non-blocking receive from " + df
-						if t.body != nil {
-							for _, in := range t.body.Instrs {
+						tbody := t.body
+						if cal, _ := tailCallee(tbody); cal != nil {
+							tbody = cal.Blocks[0] // the arm's logic lives in a helper that the arm tail-calls
+						}
+						if tbody != nil {
+							for _, in := range tbody.Instrs {
 								if _, isRet := in.(*ssa.Return); isRet {
 									break
 								}
@@ -370,15 +374,40 @@ func rulePipePublish(c *Ctx, r *R) {
 		}
 		// arms on senderDone
 		var bodies []*ssa.BasicBlock
+		var helpers []*ssa.Function
 		for _, op := range chanOpsOf(fn) {
 			for _, a := range op.arms {
 				if !a.send && fieldOfChan(a.ch) == "senderDone" && a.body != nil {
 					bodies = append(bodies, a.body)
+					if cal, _ := tailCallee(a.body); cal != nil {
+						// the helper runs only after senderDone was observed if every call site is such an arm
+						only := true
+						for _, site := range callSitesOf(c, cal) {
+							okSite := false
+							for _, op2 := range chanOpsOf(site.Parent()) {
+								for _, a2 := range op2.arms {
+									if !a2.send && fieldOfChan(a2.ch) == "senderDone" && a2.body != nil && a2.body.Dominates(site.Block()) {
+										okSite = true
+									}
+								}
+							}
+							if !okSite {
+								only = false
+							}
+						}
+						if only {
+							helpers = append(helpers, cal)
+						}
+					}
 				}
 			}
 		}
 		nreads := 0
-		instrs(fn, func(b *ssa.BasicBlock, i int, in ssa.Instruction) {
+		scan := []*ssa.Function{fn}
+		scan = append(scan, helpers...)
+		for _, sf := range scan {
+		sf := sf
+		instrs(sf, func(b *ssa.BasicBlock, i int, in ssa.Instruction) {
 			ld, ok := in.(*ssa.UnOp)
 			if !ok || ld.Op != token.MUL {
 				return
@@ -388,9 +417,9 @@ func rulePipePublish(c *Ctx, r *R) {
 				return
 			}
 			nreads++
-			dom := false
+			dom := sf != fn // inside a helper that is only reachable from a senderDone arm
 			for _, bb := range bodies {
-				if bb.Dominates(b) {
+				if sf == fn && bb.Dominates(b) {
 					dom = true
 				}
 			}
@@ -410,6 +439,7 @@ func rulePipePublish(c *Ctx, r *R) {
 			}
 			r.ok(found, name+"|return-senderErr#"+itoa(nreads), ld.Pos(), "the error read from *senderErr is not the error operand of a return: the sender's close error would be replaced or dropped")
 		})
+		}
 		if nreads == 0 {
 			r.violated(name+"|read-senderErr", fn.Pos(), "no read of *senderErr: the sender's close error can never be reported")
 		}
@@ -418,7 +448,16 @@ func rulePipePublish(c *Ctx, r *R) {
 	nx := c.fn("stream.pipeStream.Next")
 	if nx != nil {
 		okEnd := false
-		instrs(nx, func(b *ssa.BasicBlock, i int, in ssa.Instruction) {
+		endFns := []*ssa.Function{nx}
+		for _, op := range chanOpsOf(nx) {
+			for _, a := range op.arms {
+				if cal, _ := tailCallee(a.body); cal != nil {
+					endFns = append(endFns, cal)
+				}
+			}
+		}
+		for _, ef := range endFns {
+		instrs(ef, func(b *ssa.BasicBlock, i int, in ssa.Instruction) {
 			ret, ok := in.(*ssa.Return)
 			if !ok || len(ret.Results) != 2 {
 				return
@@ -431,6 +470,7 @@ func rulePipePublish(c *Ctx, r *R) {
 				}
 			}
 		})
+		}
 		r.ok(okEnd, "stream.pipeStream.Next|end-iff-nil", nx.Pos(), "End must be reported exactly on the path where the sender's close error is nil")
 	}
 }
